@@ -17,7 +17,7 @@ CONSTANTS Keys,      \* normalised keys (strings naming them)
           MaxSteps,
           ViewHist,
           EmitAll,   \* TRUE: emit a line per transition (exploration); FALSE: only when the history is complete (simulation)
-          Travs      \* traversal policies allowed: subset of {"plain","update","clear","clearothers","updateothers"}
+          Travs      \* traversal policies allowed: subset of {"plain","update","rawupdate","clear","clearothers","updateothers"}
 
 VARIABLES map,   \* [Keys -> {"nil","v1","v2"}]
           n, out, hist
@@ -72,6 +72,7 @@ Trav(pol) ==
   /\ LET P == Present(map)
          m2 == CASE pol = "plain" -> map
                  [] pol = "update" -> [k \in Keys |-> IF k \in P THEN "v2" ELSE "nil"]
+                 [] pol = "rawupdate" -> [k \in Keys |-> IF k \in P THEN "v2" ELSE "nil"]   \* the same with rawset
                  [] pol = "updateothers" -> [k \in Keys |-> IF k \in P /\ Cardinality(P) > 1 THEN "v2" ELSE map[k]]
                  [] pol = "clear" -> [k \in Keys |-> "nil"]
                  [] pol = "clearothers" -> [k \in Keys |-> "nil"]  \* the body clears every other key at the first visit, the program then clears the survivor
